@@ -171,3 +171,67 @@ def bookkeeping(r, from_masks=True):
             if r["metrics"]["DSC"]["sq"] < r["metrics"]["IOU"]["sq"] - 1e-12:
                 bad.append("sq_dsc < sq")
     return bad
+
+
+TRIPLES = []      # (op, input, output) of the engine calls made by model_results, for the vm_compute cross-check
+
+
+def model_results(items):
+    """Batched version of model_result: items = [(cfg, pred, ref)] -> list of ('ok', sx) / ('err', code) / ('skip', why)."""
+    n = len(items)
+    out = [None] * n
+    p2s = [None] * n
+    m_in, m_idx = [], []
+    for i, (cfg, pred, ref) in enumerate(items):
+        if cfg.get("input") == "matched" or not (pred != 0).any() or not (ref != 0).any():
+            p2s[i] = pred
+            continue
+        try:
+            pt, ut = build_ext_match(cfg, pred, ref)
+        except Exception as e:  # noqa
+            out[i] = ("skip", "ext: " + repr(e)[:60])
+            continue
+        m_in.append([enc_cfg(cfg), [[], pt, ut], arr2(pred, ref)])
+        m_idx.append(i)
+    m_out = engine_run(102, m_in)
+    for i, inp, o in zip(m_idx, m_in, m_out):
+        if len(TRIPLES) < 400:
+            TRIPLES.append((102, inp, o))
+        if o[0] != 0:
+            out[i] = ("err", o[1])
+        else:
+            p2s[i] = np.array(o[1], dtype=np.int64).reshape(items[i][1].shape)
+    e_in, e_idx = [], []
+    for i, (cfg, pred, ref) in enumerate(items):
+        if out[i] is not None:
+            continue
+        p2 = p2s[i]
+        ims = cfg.get("imetrics", ["DSC", "IOU", "ASSD", "RVD"])
+        it = []
+        common_labels = sorted(set(int(x) for x in np.unique(p2) if x) & set(int(x) for x in np.unique(ref) if x))
+        bad = None
+        for m in ("ASSD", "clDSC"):
+            if m in ims:
+                for l in common_labels:
+                    try:
+                        v = mcall(m, ref, p2, l, l)
+                    except Exception as e:  # noqa
+                        bad = f"{m} raised for label {l}"
+                        break
+                    if np.isnan(v) or np.isinf(v):
+                        bad = f"{m} undefined for label {l}"
+                        break
+                    it.append([impl.METRICS.index(m), l, fq(v)])
+        if bad:
+            out[i] = ("skip", bad)
+            continue
+        c2 = dict(cfg)
+        c2["input"] = "matched"
+        e_in.append([enc_cfg(c2), [it, [], []], arr2(p2, ref)])
+        e_idx.append(i)
+    e_out = engine_run(101, e_in)
+    for i, inp, o in zip(e_idx, e_in, e_out):
+        if len(TRIPLES) < 800:
+            TRIPLES.append((101, inp, o))
+        out[i] = ("ok", o[1]) if o[0] == 0 else ("err", o[1])
+    return out
